@@ -1,7 +1,546 @@
-//! placeholder (synthesizer comes later)
-use crate::model::Model;
+//! Layout synthesizer (DESIGN 3.4): an independent *writer* that encodes a model tree in an
+//! arbitrary legal physical layout.  Uses no `cfb` code.  All decisions come from a stream
+//! of generated choices (so cases shrink toward the canonical layout).
+
+use crate::model::*;
+use crate::names::{cfb_cmp, cfb_eq, is_valid_name};
+use crate::ops::{pick, DataSpec, TimeSpec};
 use crate::util::Fail;
-pub fn foreign_start(_seed: u64, _version: u8, _pool: &[String]) -> Result<(Vec<u8>, Model), Fail> {
-    Err(Fail::new("harness|synth_missing", "synthesizer not built yet"))
+use serde::{Deserialize, Serialize};
+
+pub const AVAILABLE: bool = true;
+
+const FREESECT: u32 = 0xFFFF_FFFF;
+const ENDOFCHAIN: u32 = 0xFFFF_FFFE;
+const FATSECT: u32 = 0xFFFF_FFFD;
+const DIFSECT: u32 = 0xFFFF_FFFC;
+const NOSTREAM: u32 = 0xFFFF_FFFF;
+
+#[derive(Clone, Debug, PartialEq, Eq, Serialize, Deserialize)]
+pub enum ItemKind {
+    Stream { data: DataSpec },
+    Storage { clsid: [u8; 16], created: u64, modified: u64 },
 }
-pub const AVAILABLE: bool = false;
+
+#[derive(Clone, Debug, PartialEq, Eq, Serialize, Deserialize)]
+pub struct Item {
+    pub parent: u16,
+    pub name: u16,
+    pub state: u32,
+    pub kind: ItemKind,
+}
+
+#[derive(Clone, Debug, PartialEq, Eq, Serialize, Deserialize)]
+pub struct TreeSpec {
+    pub root_clsid: [u8; 16],
+    pub root_state: u32,
+    pub root_created: u64,
+    pub root_modified: u64,
+    pub items: Vec<Item>,
+}
+
+/// Builds the model tree a TreeSpec describes (invalid or duplicate names are skipped).
+pub fn build_model(spec: &TreeSpec, pool: &[String]) -> Model {
+    let mut m = Model::new();
+    if let Kind::Storage { clsid, created, modified, .. } = &mut m.root.kind {
+        *clsid = spec.root_clsid;
+        *created = TimeVal::Exact(spec.root_created);
+        *modified = TimeVal::Exact(spec.root_modified);
+    }
+    m.root.state = spec.root_state;
+    if pool.is_empty() {
+        return m;
+    }
+    for it in spec.items.iter() {
+        let storages = m.storages();
+        let parent = storages[pick(it.parent, storages.len())].clone();
+        if parent.len() >= 5 {
+            continue;
+        }
+        let name = pool[pick(it.name, pool.len())].clone();
+        if !is_valid_name(&name) {
+            continue;
+        }
+        if m.get(&parent).unwrap().find_child(&name).is_some() {
+            continue;
+        }
+        let node = match &it.kind {
+            ItemKind::Stream { data } => Node { name, state: it.state, kind: Kind::Stream { data: data.bytes() } },
+            ItemKind::Storage { clsid, created, modified } => Node {
+                name,
+                state: it.state,
+                kind: Kind::Storage { children: vec![], clsid: *clsid, created: TimeVal::Exact(*created), modified: TimeVal::Exact(*modified) },
+            },
+        };
+        m.insert(&parent, node);
+    }
+    m
+}
+
+/// Source of layout decisions.
+pub struct Choices<'a> {
+    data: &'a [u16],
+    pos: usize,
+}
+
+impl<'a> Choices<'a> {
+    pub fn new(data: &'a [u16]) -> Self {
+        Choices { data, pos: 0 }
+    }
+    pub fn next(&mut self) -> u16 {
+        if self.data.is_empty() {
+            return 0;
+        }
+        let v = self.data[self.pos % self.data.len()];
+        // vary repeated passes over a short choice list
+        let pass = (self.pos / self.data.len()) as u16;
+        self.pos += 1;
+        v.wrapping_add(pass.wrapping_mul(40503))
+    }
+    pub fn below(&mut self, n: usize) -> usize {
+        if n <= 1 {
+            0
+        } else {
+            pick(self.next(), n)
+        }
+    }
+    pub fn flag(&mut self, num: u16, den: u16) -> bool {
+        self.next() % den < num
+    }
+    /// Fisher-Yates with the choice stream; all-zero choices give the identity.
+    pub fn permute<T>(&mut self, v: &mut Vec<T>) {
+        for i in 0..v.len() {
+            let j = i + self.below(v.len() - i);
+            v.swap(i, j);
+        }
+    }
+}
+
+#[derive(Clone, Debug, Default)]
+pub struct LayoutInfo {
+    pub fragmented_chain: bool,
+    pub red_node_in_tree_of_3: bool,
+    pub unallocated_gap: bool,
+    pub difat_sectors: usize,
+    pub fat_sectors: usize,
+    pub dir_sectors: usize,
+    pub minifat_sectors: usize,
+    pub nsectors: usize,
+    pub entries: usize,
+}
+
+struct FlatEntry {
+    node_path: Vec<usize>,
+    name: String,
+    typ: u8,
+    color: u8,
+    left: u32,
+    right: u32,
+    child: u32,
+    clsid: [u8; 16],
+    state: u32,
+    created: u64,
+    modified: u64,
+    start: u32,
+    size: u64,
+}
+
+fn tv(t: &TimeVal) -> u64 {
+    match t {
+        TimeVal::Exact(v) => *v,
+        _ => 0,
+    }
+}
+
+/// Synthesizes an image for `model`. `surplus_fat`: extra FAT sectors mapping only
+/// non-existent sectors (to get DIFAT sectors in small files).
+pub fn synthesize(model: &Model, version: u8, choices: &[u16], surplus_fat: usize) -> (Vec<u8>, LayoutInfo) {
+    let mut ch = Choices::new(choices);
+    let mut info = LayoutInfo::default();
+    let sl: usize = if version == 3 { 512 } else { 4096 };
+    let per = sl / 4;
+
+    // ---- 1. flatten the tree; assign directory slots
+    // collect nodes in pre-order; index 0 = root
+    struct Flat<'a> {
+        node: &'a Node,
+        parent: Option<usize>,
+    }
+    let mut flat: Vec<Flat> = vec![Flat { node: &model.root, parent: None }];
+    let mut i = 0;
+    while i < flat.len() {
+        let node = flat[i].node;
+        for c in node.children() {
+            flat.push(Flat { node: c, parent: Some(i) });
+        }
+        i += 1;
+    }
+    let n = flat.len();
+    // slots: root at 0; others permuted with gaps
+    let gaps = if n > 1 { ch.below(4) } else { 0 } + if ch.flag(1, 4) { ch.below(6) } else { 0 };
+    let mut slots: Vec<usize> = (1..n + gaps).collect();
+    ch.permute(&mut slots);
+    let mut slot_of = vec![0usize; n];
+    for k in 1..n {
+        slot_of[k] = slots[k - 1];
+    }
+    let max_slot = slot_of.iter().copied().max().unwrap_or(0);
+    let trailing = ch.below(3);
+    let dir_entries_per = sl / 128;
+    let total_slots = {
+        let want = max_slot + 1 + trailing;
+        ((want + dir_entries_per - 1) / dir_entries_per) * dir_entries_per
+    };
+    info.unallocated_gap = (1..=max_slot).any(|s| !slot_of.contains(&s));
+    info.entries = n;
+
+    // ---- 2. sibling trees
+    let mut left = vec![NOSTREAM; n];
+    let mut right = vec![NOSTREAM; n];
+    let mut child = vec![NOSTREAM; n];
+    let mut color = vec![1u8; n];
+    // children of each flat node, in CFB order (model keeps them sorted)
+    let mut kids: Vec<Vec<usize>> = vec![Vec::new(); n];
+    for k in 1..n {
+        kids[flat[k].parent.unwrap()].push(k);
+    }
+    for p in 0..n {
+        let ks = &kids[p];
+        if ks.is_empty() {
+            continue;
+        }
+        debug_assert!(ks.windows(2).all(|w| cfb_cmp(&flat[w[0]].node.name, &flat[w[1]].node.name) == std::cmp::Ordering::Less));
+        let style = ch.below(8);
+        if style == 7 && ks.len() <= 6 {
+            // degenerate right-leaning list, all black (what this library writes for
+            // ascending insertions); legal as far as the property's rules go
+            for w in ks.windows(2) {
+                right[w[0]] = slot_of[w[1]] as u32;
+            }
+            child[p] = slot_of[ks[0]] as u32;
+        } else {
+            // balanced: complete levels black, the incomplete deepest level red
+            let m = ks.len();
+            let full_levels = (usize::BITS - (m + 1).leading_zeros() - 1) as usize; // floor(log2(m+1))
+            let perfect = (1usize << full_levels) - 1 == m;
+            fn build(ks: &[usize], lo: usize, hi: usize, depth: usize, red_depth: Option<usize>, upper: bool, slot_of: &[usize], left: &mut [u32], right: &mut [u32], color: &mut [u8]) -> u32 {
+                if lo >= hi {
+                    return NOSTREAM;
+                }
+                let len = hi - lo;
+                let mid = if upper { lo + len / 2 } else { lo + (len - 1) / 2 };
+                let id = ks[mid];
+                color[id] = if Some(depth) == red_depth { 0 } else { 1 };
+                left[id] = build(ks, lo, mid, depth + 1, red_depth, upper, slot_of, left, right, color);
+                right[id] = build(ks, mid + 1, hi, depth + 1, red_depth, upper, slot_of, left, right, color);
+                slot_of[id] as u32
+            }
+            let red_depth = if perfect { None } else { Some(full_levels) };
+            let upper = ch.flag(1, 2);
+            child[p] = build(ks, 0, m, 0, red_depth, upper, &slot_of, &mut left, &mut right, &mut color);
+            if m >= 3 && !perfect {
+                info.red_node_in_tree_of_3 = true;
+            }
+        }
+    }
+
+    // ---- 3. stream placement
+    let mut mini_streams: Vec<(usize, usize)> = Vec::new(); // (flat idx, mini sector count)
+    let mut big_streams: Vec<(usize, usize)> = Vec::new(); // (flat idx, sector count)
+    for k in 1..n {
+        if let Kind::Stream { data } = &flat[k].node.kind {
+            if data.is_empty() {
+                continue;
+            }
+            if data.len() < 4096 {
+                mini_streams.push((k, (data.len() + 63) / 64));
+            } else {
+                big_streams.push((k, (data.len() + sl - 1) / sl));
+            }
+        }
+    }
+    let mini_used: usize = mini_streams.iter().map(|x| x.1).sum();
+    let mini_free = if mini_used > 0 { ch.below(5) } else { 0 };
+    let mini_total = mini_used + mini_free;
+    let mut mini_ids: Vec<u32> = (0..mini_total as u32).collect();
+    ch.permute(&mut mini_ids);
+    // the last mini sector of the mini stream must exist; free mini sectors may be anywhere
+    let mut minifat_cells = vec![FREESECT; mini_total];
+    let mut mini_start = vec![ENDOFCHAIN; n];
+    let mut mini_chain_of: Vec<(usize, Vec<u32>)> = Vec::new();
+    {
+        let mut cursor = 0;
+        for &(k, cnt) in mini_streams.iter() {
+            let ids: Vec<u32> = mini_ids[cursor..cursor + cnt].to_vec();
+            cursor += cnt;
+            for w in 0..cnt {
+                minifat_cells[ids[w] as usize] = if w + 1 < cnt { ids[w + 1] } else { ENDOFCHAIN };
+            }
+            if ids.windows(2).any(|w| w[1] != w[0] + 1) {
+                info.fragmented_chain = true;
+            }
+            mini_start[k] = ids[0];
+            mini_chain_of.push((k, ids));
+        }
+    }
+    let ministream_sectors = (mini_total * 64 + sl - 1) / sl;
+    let minifat_sectors = (mini_total * 4 + sl - 1) / sl + if mini_total > 0 && ch.flag(1, 8) { 1 } else { 0 };
+    let dir_sectors = total_slots / dir_entries_per;
+    let extra_free = ch.below(4) + if ch.flag(1, 6) { ch.below(12) } else { 0 };
+    let data_sectors: usize = big_streams.iter().map(|x| x.1).sum();
+    let base = dir_sectors + minifat_sectors + ministream_sectors + data_sectors + extra_free;
+    // FAT / DIFAT fixpoint
+    let mut fat_sectors = 1;
+    let mut difat_sectors = 0;
+    loop {
+        let total = base + fat_sectors + difat_sectors;
+        let need_fat = (total + per - 1) / per + surplus_fat;
+        let need_difat = if need_fat > 109 { (need_fat - 109 + (per - 2)) / (per - 1) } else { 0 };
+        if need_fat == fat_sectors && need_difat == difat_sectors {
+            break;
+        }
+        fat_sectors = need_fat;
+        difat_sectors = need_difat;
+    }
+    let total = base + fat_sectors + difat_sectors;
+    info.fat_sectors = fat_sectors;
+    info.difat_sectors = difat_sectors;
+    info.dir_sectors = dir_sectors;
+    info.minifat_sectors = minifat_sectors;
+    info.nsectors = total;
+    // assign sector numbers
+    let mut ids: Vec<u32> = (0..total as u32).collect();
+    ch.permute(&mut ids);
+    let mut take = |k: usize| -> Vec<u32> {
+        let v: Vec<u32> = ids.drain(..k).collect();
+        v
+    };
+    let dir_chain = take(dir_sectors);
+    let minifat_chain = take(minifat_sectors);
+    let ministream_chain = take(ministream_sectors);
+    let fat_ids = take(fat_sectors);
+    let difat_ids = take(difat_sectors);
+    let mut big_chain_of: Vec<(usize, Vec<u32>)> = Vec::new();
+    for &(k, cnt) in big_streams.iter() {
+        let c = take(cnt);
+        if c.windows(2).any(|w| w[1] != w[0] + 1) {
+            info.fragmented_chain = true;
+        }
+        big_chain_of.push((k, c));
+    }
+    // remaining ids are free sectors
+    let mut fat = vec![FREESECT; fat_sectors * per];
+    let link = |fat: &mut Vec<u32>, chain: &[u32]| {
+        for w in 0..chain.len() {
+            fat[chain[w] as usize] = if w + 1 < chain.len() { chain[w + 1] } else { ENDOFCHAIN };
+        }
+    };
+    link(&mut fat, &dir_chain);
+    link(&mut fat, &minifat_chain);
+    link(&mut fat, &ministream_chain);
+    for (_, c) in big_chain_of.iter() {
+        link(&mut fat, c);
+    }
+    for &f in fat_ids.iter() {
+        fat[f as usize] = FATSECT;
+    }
+    for &d in difat_ids.iter() {
+        fat[d as usize] = DIFSECT;
+    }
+    if dir_chain.windows(2).any(|w| w[1] != w[0] + 1) || ministream_chain.windows(2).any(|w| w[1] != w[0] + 1) {
+        info.fragmented_chain = true;
+    }
+
+    // ---- 4. emit
+    let mut img = vec![0u8; (total + 1) * sl];
+    let put16 = |img: &mut Vec<u8>, off: usize, v: u16| img[off..off + 2].copy_from_slice(&v.to_le_bytes());
+    let put32 = |img: &mut Vec<u8>, off: usize, v: u32| img[off..off + 4].copy_from_slice(&v.to_le_bytes());
+    let put64 = |img: &mut Vec<u8>, off: usize, v: u64| img[off..off + 8].copy_from_slice(&v.to_le_bytes());
+    let soff = |s: u32| (s as usize + 1) * sl;
+    // header
+    img[0..8].copy_from_slice(&[0xD0, 0xCF, 0x11, 0xE0, 0xA1, 0xB1, 0x1A, 0xE1]);
+    put16(&mut img, 24, [0x3E, 0x3B, 0x21, 0][ch.below(4)]);
+    put16(&mut img, 26, version as u16);
+    put16(&mut img, 28, 0xFFFE);
+    put16(&mut img, 30, if version == 3 { 9 } else { 12 });
+    put16(&mut img, 32, 6);
+    put32(&mut img, 40, if version == 3 { 0 } else { dir_sectors as u32 });
+    put32(&mut img, 44, fat_sectors as u32);
+    put32(&mut img, 48, dir_chain[0]);
+    put32(&mut img, 52, if ch.flag(1, 3) { ch.next() as u32 * 65537 } else { 0 });
+    put32(&mut img, 56, 4096);
+    put32(&mut img, 60, minifat_chain.first().copied().unwrap_or(ENDOFCHAIN));
+    put32(&mut img, 64, minifat_sectors as u32);
+    put32(&mut img, 68, difat_ids.first().copied().unwrap_or(ENDOFCHAIN));
+    put32(&mut img, 72, difat_sectors as u32);
+    for i in 0..109 {
+        put32(&mut img, 76 + 4 * i, fat_ids.get(i).copied().unwrap_or(FREESECT));
+    }
+    // DIFAT sectors
+    for (di, &d) in difat_ids.iter().enumerate() {
+        let off = soff(d);
+        for c in 0..per - 1 {
+            let idx = 109 + di * (per - 1) + c;
+            put32(&mut img, off + 4 * c, fat_ids.get(idx).copied().unwrap_or(FREESECT));
+        }
+        put32(&mut img, off + sl - 4, difat_ids.get(di + 1).copied().unwrap_or(ENDOFCHAIN));
+    }
+    // FAT sectors
+    for (fi, &f) in fat_ids.iter().enumerate() {
+        let off = soff(f);
+        for c in 0..per {
+            put32(&mut img, off + 4 * c, fat[fi * per + c]);
+        }
+    }
+    // MiniFAT
+    for (mi, &s) in minifat_chain.iter().enumerate() {
+        let off = soff(s);
+        for c in 0..per {
+            let idx = mi * per + c;
+            put32(&mut img, off + 4 * c, minifat_cells.get(idx).copied().unwrap_or(FREESECT));
+        }
+    }
+    // stream data
+    for (k, ids) in mini_chain_of.iter() {
+        if let Kind::Stream { data } = &flat[*k].node.kind {
+            let per_ms = sl / 64;
+            for (w, &ms) in ids.iter().enumerate() {
+                let sec = ministream_chain[ms as usize / per_ms];
+                let off = soff(sec) + (ms as usize % per_ms) * 64;
+                let chunk = &data[w * 64..data.len().min(w * 64 + 64)];
+                img[off..off + chunk.len()].copy_from_slice(chunk);
+                // slack of the last mini sector: garbage is legal
+                if chunk.len() < 64 && ch.flag(1, 2) {
+                    for b in img[off + chunk.len()..off + 64].iter_mut() {
+                        *b = 0xA5;
+                    }
+                }
+            }
+        }
+    }
+    for (k, ids) in big_chain_of.iter() {
+        if let Kind::Stream { data } = &flat[*k].node.kind {
+            for (w, &s) in ids.iter().enumerate() {
+                let off = soff(s);
+                let chunk = &data[w * sl..data.len().min(w * sl + sl)];
+                img[off..off + chunk.len()].copy_from_slice(chunk);
+                if chunk.len() < sl && ch.flag(1, 2) {
+                    for b in img[off + chunk.len()..off + sl].iter_mut() {
+                        *b = 0x5A;
+                    }
+                }
+            }
+        }
+    }
+    // free sectors may hold garbage
+    for &s in ids.iter() {
+        if ch.flag(1, 2) {
+            let off = soff(s);
+            for b in img[off..off + sl].iter_mut() {
+                *b = 0xEE;
+            }
+        }
+    }
+    // directory
+    let big_start: std::collections::HashMap<usize, u32> = big_chain_of.iter().map(|(k, c)| (*k, c[0])).collect();
+    let entry_off = |slot: usize| soff(dir_chain[slot / dir_entries_per]) + (slot % dir_entries_per) * 128;
+    for slot in 0..total_slots {
+        let off = entry_off(slot);
+        for b in img[off..off + 128].iter_mut() {
+            *b = 0;
+        }
+        put32(&mut img, off + 68, NOSTREAM);
+        put32(&mut img, off + 72, NOSTREAM);
+        put32(&mut img, off + 76, NOSTREAM);
+    }
+    for k in 0..n {
+        let node = flat[k].node;
+        let off = entry_off(slot_of[k]);
+        let name = if k == 0 { "Root Entry".to_string() } else { node.name.clone() };
+        let units: Vec<u16> = name.encode_utf16().collect();
+        for (i, u) in units.iter().enumerate() {
+            put16(&mut img, off + 2 * i, *u);
+        }
+        put16(&mut img, off + 64, (units.len() as u16 + 1) * 2);
+        put32(&mut img, off + 68, left[k]);
+        put32(&mut img, off + 72, right[k]);
+        put32(&mut img, off + 76, child[k]);
+        put32(&mut img, off + 96, node.state);
+        match &node.kind {
+            Kind::Storage { clsid, created, modified, .. } => {
+                img[off + 66] = if k == 0 { 5 } else { 1 };
+                img[off + 67] = if k == 0 { [1u8, 0][ch.below(2)] } else { color[k] };
+                let g = clsid;
+                let disk = [g[3], g[2], g[1], g[0], g[5], g[4], g[7], g[6], g[8], g[9], g[10], g[11], g[12], g[13], g[14], g[15]];
+                img[off + 80..off + 96].copy_from_slice(&disk);
+                put64(&mut img, off + 100, tv(created));
+                put64(&mut img, off + 108, tv(modified));
+                if k == 0 {
+                    put32(&mut img, off + 116, ministream_chain.first().copied().unwrap_or(ENDOFCHAIN));
+                    put64(&mut img, off + 120, (mini_total * 64) as u64);
+                }
+            }
+            Kind::Stream { data } => {
+                img[off + 66] = 2;
+                img[off + 67] = color[k];
+                let start = if data.is_empty() {
+                    ENDOFCHAIN
+                } else if data.len() < 4096 {
+                    mini_start[k]
+                } else {
+                    big_start[&k]
+                };
+                put32(&mut img, off + 116, start);
+                put64(&mut img, off + 120, data.len() as u64);
+            }
+        }
+    }
+    (img, info)
+}
+
+/// Deterministic small tree + layout from a seed (start state `Start::Foreign`).
+pub fn foreign_start(seed: u64, version: u8, pool: &[String]) -> Result<(Vec<u8>, Model), Fail> {
+    let mut x = seed | 1;
+    let mut next = move || {
+        x ^= x << 13;
+        x ^= x >> 7;
+        x ^= x << 17;
+        x
+    };
+    let nitems = (next() % 14) as usize;
+    let mut items = Vec::new();
+    for _ in 0..nitems {
+        let r = next();
+        let kind = if r % 3 == 0 {
+            ItemKind::Storage { clsid: (next() as u128 * 0x1_0000_0001u128).to_le_bytes(), created: next() >> 3, modified: next() >> 5 }
+        } else {
+            let sizes = [0u32, 1, 63, 64, 65, 500, 4095, 4096, 4097, 6000];
+            ItemKind::Stream { data: DataSpec { len: sizes[(next() % sizes.len() as u64) as usize], seed: next() as u8 } }
+        };
+        items.push(Item { parent: next() as u16, name: next() as u16, state: next() as u32, kind });
+    }
+    let spec = TreeSpec { root_clsid: (next() as u128).to_le_bytes(), root_state: next() as u32, root_created: 0, root_modified: next() >> 4, items };
+    let model = build_model(&spec, pool);
+    let choices: Vec<u16> = (0..40).map(|_| next() as u16).collect();
+    let (img, _info) = synthesize(&model, version, &choices, 0);
+    let rules = crate::refparse::check(&img);
+    if let Some((id, d)) = rules.first() {
+        return Err(Fail::new("harness|synth_invalid", format!("synthesizer produced an image the checker rejects: {} {}", id, d)));
+    }
+    Ok((img, model))
+}
+
+pub fn names_unique(model: &Model) -> bool {
+    fn rec(n: &Node) -> bool {
+        let ch = n.children();
+        for i in 0..ch.len() {
+            for j in i + 1..ch.len() {
+                if cfb_eq(&ch[i].name, &ch[j].name) {
+                    return false;
+                }
+            }
+        }
+        ch.iter().all(rec)
+    }
+    rec(&model.root)
+}
